@@ -35,14 +35,13 @@ theorem pyIntOf_barCap (n ppqn d : Int) (hn : 0 ≤ n) (hp : 0 ≤ ppqn) (hd : 0
 /-- **`Bar(sequence, numerator, denominator, key, default_channel)` as translated from bar.py is `mkBarCh` on the
     relative view of the sequence, for EVERY `default_channel`** (audit round 3, R7): same exception or same bar, the
     leading time-signature event on channel `chanOf default_channel` (`None` ↦ 0, `Message.__init__`); the sequence is
-    left with exactly the bar's relative view, relative view fresh, absolute view stale and untouched; the bar
-    remembers `default_channel` (repair of D37). -/
+    left with exactly the bar's relative view, relative view fresh, absolute view stale and untouched.  (`default_channel`
+    is not kept by the bar: it lives on only as the channel of that event.) -/
 theorem barInit_eq_ch (e : Env) (s : Seq) (n d key c : Int) (hn : 0 ≤ n) (hd : 0 < d) (hp : 0 ≤ e.ppqn) :
     Gen.Elem.barInit e s n d key c =
       (do let p ← s.readRel
           let b ← mkBarCh e.ppqn p.2 n d key (chanOf c)
-          pure { sequence := { abs := s.abs, rel := b.seq, absStale := true, relStale := false }, num := n, den := d, key := key,
-                 defaultChannel := c }) := by
+          pure { sequence := { abs := s.abs, rel := b.seq, absStale := true, relStale := false }, num := n, den := d, key := key }) := by
   have hc := pyIntOf_barCap n e.ppqn d hn hp hd
   obtain ⟨a, r, sa, sr⟩ := s
   cases sa <;> cases sr <;>
@@ -53,7 +52,7 @@ theorem barInit_eq_ch (e : Env) (s : Seq) (n d key c : Int) (hn : 0 ≤ n) (hd :
 /-- **`Bar(sequence, numerator, denominator, key)` as translated from bar.py is `mkBar` on the relative view
     of the sequence**: same exception or same bar; the sequence is left with exactly the bar's relative
     view, relative view fresh, absolute view stale and untouched.  (The instance `default_channel = 0` of
-    `barInit_eq_ch`; the record on the right has `defaultChannel := 0`, the field's default.) -/
+    `barInit_eq_ch`.) -/
 theorem barInit_eq (e : Env) (s : Seq) (n d key : Int) (hn : 0 ≤ n) (hd : 0 < d) (hp : 0 ≤ e.ppqn) :
     Gen.Elem.barInit e s n d key 0 =
       (do let p ← s.readRel
@@ -91,11 +90,11 @@ theorem barInit_toBar (e : Env) (s : Seq) (n d key : Int) (hn : 0 ≤ n) (hd : 0
   barInit_toBar_ch e s n d key 0 hn hd hp
 
 /-- **what every successfully constructed bar looks like — no hypothesis on the signature, PPQN or the wrapper state**:
-    relative view fresh, absolute view stale, the arguments stored — `default_channel` among them (repair of D37) — and
-    the leading event of the relative view is the bar's time signature on channel `chanOf default_channel` -/
+    relative view fresh, absolute view stale, the arguments stored, and the leading event of the relative view is the
+    bar's time signature on channel `chanOf default_channel` -/
 theorem barInit_shape (e : Env) (s : Seq) (n d key c : Int) (g : GBar)
     (h : Gen.Elem.barInit e s n d key c = .ok g) :
-    g.sequence.absStale = true ∧ g.sequence.relStale = false ∧ g.num = n ∧ g.den = d ∧ g.key = key ∧ g.defaultChannel = c ∧
+    g.sequence.absStale = true ∧ g.sequence.relStale = false ∧ g.num = n ∧ g.den = d ∧ g.key = key ∧
       g.sequence.rel.head? = some (Msg.mkTimeSig (chanOf c) n d pyNone) := by
   obtain ⟨a, r, sa, sr⟩ := s
   generalize hcap : pyIntOf (((PyNum.int n).mul (PyNum.int e.ppqn)).truediv ((PyNum.int d).truediv (PyNum.int 4))) = cap at *
@@ -111,108 +110,168 @@ theorem barInit_flags (e : Env) (s : Seq) (n d key : Int) (hn : 0 ≤ n) (hd : 0
   obtain ⟨h1, h2, h3, h4, h5, _⟩ := barInit_shape e s n d key 0 g h
   exact ⟨h1, h2, h3, h4, h5⟩
 
-/-- **`Bar.copy()` as translated (after the repair of D37) is the model's copy on the bar's own channel**, for a bar
-    whose sequence can be read (at least one fresh view): a new bar constructed from the relative view, with the
-    `default_channel` the bar remembers. -/
-theorem barCopy_toBar_ch (e : Env) (g : GBar) (hn : 0 ≤ g.num) (hd : 0 < g.den) (hp : 0 ≤ e.ppqn)
-    (hr : ¬(g.sequence.absStale = true ∧ g.sequence.relStale = true)) :
-    (fun p => p.2.toBar) <$> Gen.Elem.barCopy e g =
-      (do let p ← g.sequence.readRel; mkBarCh e.ppqn p.2 g.num g.den g.key (chanOf g.defaultChannel)) := by
-  have hb := barInit_toBar_ch e g.sequence.copy g.num g.den g.key g.defaultChannel hn hd hp
-  obtain ⟨⟨a, r, sa, sr⟩, n, d, k, c⟩ := g
-  cases sa <;> cases sr <;> simp at hr <;>
-  (simp only [Gen.Elem.barCopy, copy_eq, ok_bind]
-   cases hi : Gen.Elem.barInit e _ n d k c with
-   | error x => rw [hi] at hb; exact hb
-   | ok c' => rw [hi] at hb; exact hb)
+/-! ### `Bar.copy` (bar.py:57-66, second repair of D37): the copy is constructed on the channel of the bar's own leading
+    time-signature message as it is NOW, read through the `rel` property of the bar's sequence -/
 
-/-- **`Bar.copy()` as translated is the model's `Bar.copy`** for a bar whose sequence can be read
-    (at least one fresh view) and whose `default_channel` is 0 or `None` (`hc`: the hand model `mkBar` puts the leading
-    event on channel 0; since the repair of D37 the copy keeps the bar's channel — `barCopy_toBar_ch` is the statement
-    for every channel): a new bar constructed from the relative view. -/
+/-- what the `rel` property returns is the relative view of the state it leaves, and that view is fresh -/
+theorem readRel_fresh {s : Seq} {p : Seq × List Msg} (h : s.readRel = .ok p) :
+    p.1.relStale = false ∧ p.1.rel = p.2 ∧ p.1.readRel = .ok (p.1, p.2) ∧ p.1.copy.readRel = .ok (p.1.copy, p.2) := by
+  obtain ⟨a, r, sa, sr⟩ := s
+  cases sa <;> cases sr <;> simp [Seq.readRel] at h <;> subst h <;> simp [Seq.readRel, Seq.copy, Seq.ofRel]
+
+theorem sigChan_of_head {r : List Msg} {c n d t : Int} (h : r.head? = some (Msg.mkTimeSig c n d t)) : sigChan r = c := by
+  cases r with
+  | nil => cases h
+  | cons m ms =>
+    injection h with h
+    subst h
+    simp [sigChan, Msg.mkTimeSig]
+
+/-- **`Bar.copy()` as translated, for every bar record and every wrapper state of its sequence — no hypothesis**: the
+    relative view is read through the `rel` property (a stale view is regenerated and STAYS regenerated in the original:
+    `Bar.copy` is no longer free of effects on a bar whose relative view is stale; `SequenceException` when both views are
+    stale), the channel of its first TIME_SIGNATURE message is taken (`sigChan`; 0 if there is none), and a new bar is
+    constructed from a copy of the sequence with that channel as `default_channel`.  A `copy` that passes channel 0, or a
+    channel stored at construction, changes the regenerated function and breaks this theorem. -/
+theorem barCopy_eq (e : Env) (g : GBar) :
+    Gen.Elem.barCopy e g =
+      (do let p ← g.sequence.readRel
+          let c ← Gen.Elem.barInit e p.1.copy g.num g.den g.key (sigChan p.2)
+          pure ({ g with sequence := p.1 }, c)) := by
+  simp only [Gen.Elem.barCopy, getRel_eq, copy_eq]
+  cases g.sequence.readRel with
+  | error x => rfl
+  | ok p => rfl
+
+/-- **`Bar.copy()` as translated is the model's copy on the bar's OWN channel** (`Bar.copyOwn`'s body on the relative view
+    as read): a new bar constructed from the relative view, the leading event on the channel of the view's first
+    time-signature message.  No hypothesis on the wrapper state (both views stale: the same `SequenceException` on both
+    sides — `copy` now reads the view before it copies the sequence). -/
+theorem barCopy_toBar_own (e : Env) (g : GBar) (hn : 0 ≤ g.num) (hd : 0 < g.den) (hp : 0 ≤ e.ppqn) :
+    (fun p => p.2.toBar) <$> Gen.Elem.barCopy e g =
+      (do let p ← g.sequence.readRel; mkBarCh e.ppqn p.2 g.num g.den g.key (chanOf (sigChan p.2))) := by
+  rw [barCopy_eq]
+  cases hr : g.sequence.readRel with
+  | error x => rfl
+  | ok p =>
+    have hb := barInit_toBar_ch e p.1.copy g.num g.den g.key (sigChan p.2) hn hd hp
+    rw [(readRel_fresh hr).2.2.2] at hb
+    simp only [ok_bind] at hb ⊢
+    cases hi : Gen.Elem.barInit e p.1.copy g.num g.den g.key (sigChan p.2) with
+    | error x => rw [hi] at hb; exact hb
+    | ok c' => rw [hi] at hb; exact hb
+
+/-- **`Bar.copy()` as translated is the model's `Bar.copy`** for a bar whose own time-signature message is on channel 0
+    (`hc`; so for every bar built with the default `default_channel` and not moved since — the hand model `mkBar` puts
+    the leading event on channel 0; `barCopy_toBar_own` is the statement for every channel). -/
 theorem barCopy_toBar (e : Env) (g : GBar) (hn : 0 ≤ g.num) (hd : 0 < g.den) (hp : 0 ≤ e.ppqn)
-    (hr : ¬(g.sequence.absStale = true ∧ g.sequence.relStale = true)) (hc : chanOf g.defaultChannel = 0) :
+    (hc : ∀ p, g.sequence.readRel = .ok p → chanOf (sigChan p.2) = 0) :
     (fun p => p.2.toBar) <$> Gen.Elem.barCopy e g =
       (do let p ← g.sequence.readRel; mkBar e.ppqn p.2 g.num g.den g.key) := by
-  rw [barCopy_toBar_ch e g hn hd hp hr, hc]
+  rw [barCopy_toBar_own e g hn hd hp]
+  cases hr : g.sequence.readRel with
+  | error x => rfl
+  | ok p =>
+    simp only [ok_bind]
+    rw [hc p hr]
+    rfl
+
+/-- a bar in the state its constructor leaves it in copies to `Bar.copyOwn` of its model -/
+theorem barCopy_constructed_own (e : Env) (g : GBar) (hn : 0 ≤ g.num) (hd : 0 < g.den) (hp : 0 ≤ e.ppqn)
+    (hr : g.sequence.relStale = false) :
+    (fun p => p.2.toBar) <$> Gen.Elem.barCopy e g = Bar.copyOwn e.ppqn g.toBar := by
+  rw [barCopy_toBar_own e g hn hd hp]
+  obtain ⟨⟨a, r, sa, sr⟩, n, d, k⟩ := g
+  simp only at hr
+  subst hr
   rfl
 
-/-- a bar in the state its constructor leaves it in copies to `Bar.copyCh` of its model, on the channel it remembers -/
-theorem barCopy_constructed_ch (e : Env) (g : GBar) (hn : 0 ≤ g.num) (hd : 0 < g.den) (hp : 0 ≤ e.ppqn)
-    (ha : g.sequence.absStale = true) (hr : g.sequence.relStale = false) :
-    (fun p => p.2.toBar) <$> Gen.Elem.barCopy e g = Bar.copyCh e.ppqn g.toBar (chanOf g.defaultChannel) := by
-  rw [barCopy_toBar_ch e g hn hd hp (by simp [ha, hr])]
-  obtain ⟨⟨a, r, sa, sr⟩, n, d, k, c⟩ := g
-  simp only at ha hr
-  subst ha hr
-  rfl
-
-/-- a bar in the state its constructor leaves it in copies to `Bar.copy` of its model (`default_channel` 0 or `None`,
-    see `barCopy_toBar`; every channel: `barCopy_constructed_ch`) -/
+/-- a bar in the state its constructor leaves it in copies to `Bar.copy` of its model when its signature message is on
+    channel 0 (see `barCopy_toBar`; every channel: `barCopy_constructed_own`) -/
 theorem barCopy_constructed (e : Env) (g : GBar) (hn : 0 ≤ g.num) (hd : 0 < g.den) (hp : 0 ≤ e.ppqn)
-    (ha : g.sequence.absStale = true) (hr : g.sequence.relStale = false) (hc : chanOf g.defaultChannel = 0) :
+    (hr : g.sequence.relStale = false) (hc : chanOf (sigChan g.sequence.rel) = 0) :
     (fun p => p.2.toBar) <$> Gen.Elem.barCopy e g = Bar.copy e.ppqn g.toBar := by
-  rw [barCopy_constructed_ch e g hn hd hp ha hr, hc]
+  rw [barCopy_constructed_own e g hn hd hp hr]
+  show mkBarCh e.ppqn g.sequence.rel g.num g.den g.key (chanOf (sigChan g.sequence.rel)) = _
+  rw [hc]
   rfl
 
-/-- **the statement whose failure was D37**: whenever `Bar.copy()` (as translated) of a bar succeeds, the copy carries
-    the bar's `default_channel`, numerator, denominator and key, it is in the constructed state, and the leading event
-    of its relative view is the time signature on channel `chanOf default_channel` (`None` ↦ 0) — for every bar record,
-    every wrapper state of its sequence, every signature and PPQN (no hypothesis). -/
-theorem barCopy_default_channel (e : Env) (g : GBar) (p : GBar × GBar)
+/-- **the statement whose failure was D37, and (audit round 4, D1) still failed after the first repair for a bar moved to
+    another channel**: whenever `Bar.copy()` (as translated) of a bar succeeds, the relative view of the bar could be read
+    (`rel`), the bar itself is unchanged except that a stale relative view has been regenerated, the copy carries the bar's
+    numerator, denominator and key, it is in the constructed state, and the leading event of its relative view is the time
+    signature ON THE CHANNEL OF THE BAR'S OWN FIRST TIME-SIGNATURE MESSAGE AS IT IS NOW (`sigChan rel`; 0 if the bar has
+    none) — for every bar record, every wrapper state of its sequence, every signature and PPQN (no hypothesis). -/
+theorem barCopy_sig_channel (e : Env) (g : GBar) (p : GBar × GBar)
     (h : Gen.Elem.barCopy e g = .ok p) :
-    p.2.defaultChannel = g.defaultChannel ∧ p.2.num = g.num ∧ p.2.den = g.den ∧ p.2.key = g.key ∧
-      p.2.sequence.rel.head? = some (Msg.mkTimeSig (chanOf g.defaultChannel) g.num g.den pyNone) ∧
+    ∃ s' rel, g.sequence.readRel = .ok (s', rel) ∧ p.1 = { g with sequence := s' } ∧
+      p.2.num = g.num ∧ p.2.den = g.den ∧ p.2.key = g.key ∧
+      p.2.sequence.rel.head? = some (Msg.mkTimeSig (chanOf (sigChan rel)) g.num g.den pyNone) ∧
       p.2.sequence.absStale = true ∧ p.2.sequence.relStale = false := by
-  simp only [Gen.Elem.barCopy] at h
-  cases hcp : Gen.Wrap.copy e g.sequence with
-  | error x => rw [hcp] at h; cases h
-  | ok r1 =>
-    rw [hcp] at h
+  rw [barCopy_eq] at h
+  cases hr : g.sequence.readRel with
+  | error x => rw [hr] at h; cases h
+  | ok q =>
+    rw [hr] at h
     simp only [ok_bind] at h
-    cases hi : Gen.Elem.barInit e r1.2 g.num g.den g.key g.defaultChannel with
+    cases hi : Gen.Elem.barInit e q.1.copy g.num g.den g.key (sigChan q.2) with
     | error x => rw [hi] at h; cases h
     | ok c =>
       rw [hi] at h
       simp only [ok_bind, pure_eq] at h
       injection h with h
       subst h
-      obtain ⟨h1, h2, h3, h4, h5, h6, h7⟩ := barInit_shape e r1.2 g.num g.den g.key g.defaultChannel c hi
-      exact ⟨h6, h3, h4, h5, h7, h1, h2⟩
+      obtain ⟨h1, h2, h3, h4, h5, h7⟩ := barInit_shape e q.1.copy g.num g.den g.key (sigChan q.2) c hi
+      exact ⟨q.1, q.2, rfl, rfl, h3, h4, h5, h7, h1, h2⟩
 
 /-- **bar and copy agree on the channel of the leading time signature** (D37 repaired): a bar constructed with
-    `default_channel = c` and any copy of it both start with the time-signature event on channel `chanOf c`, and both
-    remember `c`; the bar itself is not changed by being copied. -/
+    `default_channel = c` and any copy of it both start with the time-signature event on channel `chanOf c`; the bar itself
+    is not changed by being copied. -/
 theorem barCopy_of_constructed (e : Env) (s : Seq) (n d key c : Int) (g : GBar)
     (hg : Gen.Elem.barInit e s n d key c = .ok g) (p : GBar × GBar) (h : Gen.Elem.barCopy e g = .ok p) :
-    p.1 = g ∧ p.2.defaultChannel = c ∧ g.defaultChannel = c ∧
+    p.1 = g ∧
       p.2.sequence.rel.head? = some (Msg.mkTimeSig (chanOf c) n d pyNone) ∧
       g.sequence.rel.head? = some (Msg.mkTimeSig (chanOf c) n d pyNone) ∧
       p.2.sequence.rel.head? = g.sequence.rel.head? := by
-  obtain ⟨g1, g2, g3, g4, g5, g6, g7⟩ := barInit_shape e s n d key c g hg
-  obtain ⟨c1, c2, c3, c4, c5, _, _⟩ := barCopy_default_channel e g p h
-  rw [g6, g3, g4] at c5
-  refine ⟨?_, c1.trans g6, g6, c5, g7, c5.trans g7.symm⟩
-  obtain ⟨⟨a, r, sa, sr⟩, n', d', k', c'⟩ := g
-  simp only at g1 g2
-  subst g1 g2
-  simp only [Gen.Elem.barCopy, copy_eq, ok_bind] at h
-  cases hi : Gen.Elem.barInit e (Seq.copy { abs := a, rel := r, absStale := true, relStale := false }) n' d' k' c' with
-  | error x => rw [hi] at h; cases h
-  | ok cc =>
-    rw [hi] at h
-    injection h with h
-    subst h
-    rfl
+  obtain ⟨g1, g2, g3, g4, g5, g7⟩ := barInit_shape e s n d key c g hg
+  obtain ⟨s', rel, hr, c1, _, _, _, c5, _, _⟩ := barCopy_sig_channel e g p h
+  have hrd : g.sequence.readRel = .ok (g.sequence, g.sequence.rel) := by simp [Seq.readRel, g2]
+  rw [hrd] at hr
+  injection hr with hr
+  injection hr with hr1 hr2
+  subst hr1 hr2
+  have hcc : chanOf (chanOf c) = chanOf c := by
+    unfold chanOf; split <;> simp_all (config := { decide := true })
+  rw [sigChan_of_head g7, hcc, g3, g4] at c5
+  exact ⟨c1, c5, g7, c5.trans g7.symm⟩
+
+/-- **what remains true of the statement of the first repair** (`barCopy_default_channel`: "the copy carries the bar's
+    `default_channel`"): the copy of a bar constructed with `default_channel = c` AND NOT EDITED SINCE has the bar's
+    numerator, denominator and key, is in the constructed state, and its leading event is the time signature on channel
+    `chanOf c` (`None` ↦ 0).  For a bar edited since, the channel is the bar's current one: `barCopy_sig_channel`. -/
+theorem barCopy_default_channel (e : Env) (s : Seq) (n d key c : Int) (g : GBar)
+    (hg : Gen.Elem.barInit e s n d key c = .ok g) (p : GBar × GBar) (h : Gen.Elem.barCopy e g = .ok p) :
+    p.2.num = n ∧ p.2.den = d ∧ p.2.key = key ∧
+      p.2.sequence.rel.head? = some (Msg.mkTimeSig (chanOf c) n d pyNone) ∧
+      p.2.sequence.absStale = true ∧ p.2.sequence.relStale = false := by
+  obtain ⟨_, _, g3, g4, g5, _⟩ := barInit_shape e s n d key c g hg
+  obtain ⟨_, _, _, _, c2, c3, c4, _, c6, c7⟩ := barCopy_sig_channel e g p h
+  obtain ⟨_, c5, _, _⟩ := barCopy_of_constructed e s n d key c g hg p h
+  exact ⟨c2.trans g3, c3.trans g4, c4.trans g5, c5, c6, c7⟩
 
 /-! non-vacuity, on the recorded input of D37 (known_findings.json): `Bar(on 60 (channel 3), wait 24, off 60, 4, 4, None,
     default_channel=3)` and its copy.  The domain hypotheses of `barInit_eq_ch` hold (PPQN 24 ≥ 0, 0 ≤ 4, 0 < 4); bar and copy are evaluated by the
-    kernel: both `[TS 4/4 on channel 3, on 60, wait 24, off 60, wait 72]`, both remember channel 3.  (Before the repair the
-    copy's first event was `TS 4/4 on channel 0`.) -/
+    kernel: both `[TS 4/4 on channel 3, on 60, wait 24, off 60, wait 72]`.  (Before the repairs the copy's first event was
+    `TS 4/4 on channel 0`.)  Then the audit's witness (round 4, D1): the same bar after `bar.sequence.set_channel(0)` — with the first
+    repair (f9ef398) the copy's first event stayed on channel 3. -/
 def exD37 : List Msg := [Msg.mkOn 3 60 64 pyNone, Msg.mkWait 3 24, Msg.mkOff 3 60 pyNone]
 def exD37Bar : GBar :=
   { sequence := { abs := [], rel := [Msg.mkTimeSig 3 4 4 pyNone, Msg.mkOn 3 60 64 pyNone, Msg.mkWait 3 24, Msg.mkOff 3 60 pyNone, Msg.mkWait 3 72],
-                  absStale := true, relStale := false }, num := 4, den := 4, key := pyNone, defaultChannel := 3 }
+                  absStale := true, relStale := false }, num := 4, den := 4, key := pyNone }
+/-- the bar after `bar.sequence.set_channel(0)` -/
+def exD37Bar0 : GBar :=
+  { sequence := { abs := [], rel := [Msg.mkTimeSig 0 4 4 pyNone, Msg.mkOn 0 60 64 pyNone, Msg.mkWait 0 24, Msg.mkOff 0 60 pyNone, Msg.mkWait 0 72],
+                  absStale := true, relStale := false }, num := 4, den := 4, key := pyNone }
 
 example : 0 ≤ genEnv.ppqn ∧ (0 : Int) ≤ 4 ∧ (0 : Int) < 4 := by decide
 
@@ -220,19 +279,32 @@ set_option maxRecDepth 100000 in
 example : Gen.Elem.barInit genEnv (Seq.ofRel exD37) 4 4 pyNone 3 = .ok exD37Bar := by decide +kernel
 
 set_option maxRecDepth 100000 in
+/-- channel 3 at construction: the copy is the bar -/
 example : Gen.Elem.barCopy genEnv exD37Bar = .ok (exD37Bar, exD37Bar) := by decide +kernel
 
 set_option maxRecDepth 100000 in
-/-- channel 3: the copy's leading event is the 4/4 signature on channel 3, and the copy remembers channel 3 -/
-example : (Gen.Elem.barCopy genEnv exD37Bar).toOption.map (fun p => (p.2.defaultChannel, p.2.sequence.rel.head?)) =
-    some (3, some (Msg.mkTimeSig 3 4 4 pyNone)) := by decide +kernel
+/-- channel 3: the copy's leading event is the 4/4 signature on channel 3 -/
+example : (Gen.Elem.barCopy genEnv exD37Bar).toOption.map (fun p => p.2.sequence.rel.head?) =
+    some (some (Msg.mkTimeSig 3 4 4 pyNone)) := by decide +kernel
 
-/-- the same through the hand model: `Bar.copyCh` on channel 3 of the model's bar -/
-example : Bar.copyCh genEnv.ppqn exD37Bar.toBar (chanOf 3) = .ok exD37Bar.toBar := by decide +kernel
+set_option maxRecDepth 100000 in
+/-- **the audit's witness**: channel 3 at construction, then the translated `Sequence.set_channel(0)` on the bar's sequence … -/
+example : (Gen.Wrap.setChannel genEnv exD37Bar.sequence 0).toOption.map (fun r => ({ exD37Bar with sequence := r.1 } : GBar)) =
+    some exD37Bar0 := by decide +kernel
 
-/-- `default_channel=None`: the event is on channel 0 (`Message.__init__`), the bar remembers `None` -/
+set_option maxRecDepth 100000 in
+/-- … and the copy of THAT bar is the bar as it is now, the signature event on channel 0 -/
+example : Gen.Elem.barCopy genEnv exD37Bar0 = .ok (exD37Bar0, exD37Bar0) ∧
+    exD37Bar0.sequence.rel.head? = some (Msg.mkTimeSig 0 4 4 pyNone) := by decide +kernel
+
+/-- the same through the hand model: `Bar.copyOwn` of the model's bars -/
+example : Bar.copyOwn genEnv.ppqn exD37Bar.toBar = .ok exD37Bar.toBar ∧ Bar.copyOwn genEnv.ppqn exD37Bar0.toBar = .ok exD37Bar0.toBar :=
+  ⟨by decide +kernel, by decide +kernel⟩
+
+set_option maxRecDepth 100000 in
+/-- `default_channel=None`: the event is on channel 0 (`Message.__init__`) -/
 example : (Gen.Elem.barInit genEnv (Seq.ofRel exD37) 4 4 pyNone pyNone).toOption.map
-    (fun g => (g.defaultChannel, g.sequence.rel.head?)) = some (pyNone, some (Msg.mkTimeSig 0 4 4 pyNone)) := by decide +kernel
+    (fun g => g.sequence.rel.head?) = some (some (Msg.mkTimeSig 0 4 4 pyNone)) := by decide +kernel
 
 /-- **`Bar.transpose(by)` as translated**: the key (if any) goes through `Key.transpose_key`, the sequence
     through the wrapper's `transpose`; the flag is the sequence's -/
